@@ -4,6 +4,7 @@ CONSTANTS
   MaxCalls = 5
   MaxBlocks = 6
   ApiLevel = TRUE
+  Structured = FALSE
   DevUndefinedGoto = FALSE
   DevDuplicateLabel = FALSE
   EmitCases = FALSE
